@@ -329,6 +329,45 @@ func checkC14(c *Ctx) {
 			}
 		}
 	}
+	// ---- Part 2c: variables named like the names the generator derives for a loop (<var>List, <var>Index,
+	// <var>Limit ...) or for a sibling variable with a numeric suffix ----
+	for li, lb := range []struct{ body, want string }{
+		{"{foreach $it in ['p', 'q']}{let $itIndex: 'v' /}{let $itList: 'w' /}{let $itLimit: 'z' /}{let $itListLen: 'y' /}[{$it}{$itIndex}{$itList}{$itLimit}{$itListLen}]{/foreach}", "[pvwzy][qvwzy]"},
+		{"{foreach $it in ['p', 'q', 'r']}{let $itIndex: index($it) + 10 /}[{$it}{$itIndex}]{/foreach}", "[p10][q11][r12]"},
+		{"{for $it in range(3)}{let $itLimit: 'z' /}{let $itIncrement: 5 /}{let $itInit: 7 /}[{$it}{$itLimit}{$itIncrement}{$itInit}]{/for}", "[0z57][1z57][2z57]"},
+		{"{let $it1: 'a' /}{let $it: 'b' /}{foreach $it2 in ['c']}{let $it: 'd' /}[{$it1}{$it}{$it2}]{/foreach}[{$it1}{$it}]", "[adc][ab]"},
+		{"{let $itList}L{/let}{foreach $it in ['p']}[{$it}{$itList}]{/foreach}{let $param}P{/let}{call .inner}{param x}[{$param}]{/param}{/call}", "[pL]<[P]>"},
+	} {
+		if !c.Mine() {
+			continue
+		}
+		src := "{namespace idn}\n/** */\n{template .t}\n" + lb.body + "\n{/template}\n/** @param x */\n{template .inner}\n<{$x|noAutoescape}>\n{/template}\n"
+		cs := c14case{Files: map[string]string{"i.soy": src}, Origin: "loop-derived identifier"}
+		key := fmt.Sprintf("loop-ident\x00%d", li)
+		_, es5, es6, cerr, gerr, _ := genJS([]string{"i.soy"}, map[string]string{"i.soy": src}, nil)
+		if cerr != nil || gerr != nil {
+			c.Observe(key, "error")
+			c.Violate("JavaScript is generated for every accepted bundle", "mismatch", "loop-ident-jsgen", cs, "JavaScript", fmt.Sprint(cerr, gerr))
+			continue
+		}
+		c.Nontrivial()
+		vm, _ := newJSVM()
+		got := ""
+		if _, err := jsRun(vm, es5["i.soy"]); err != nil {
+			got = "load error: " + err.Error()
+		} else if out, err := jsCallTemplate(vm, "idn.t", "{}", ""); err != nil {
+			got = "call error: " + err.Error()
+		} else {
+			got = out
+		}
+		c.Observe(key, got)
+		if got != lb.want {
+			c.Violate("the generated JavaScript is a syntactically valid script whose identifiers denote the template's variables", "mismatch", fmt.Sprintf("loop-ident:%d", li), cs, lb.want, got)
+		}
+		if err := jsParses(es6ToScript(es6["i.soy"])); err != nil {
+			c.Violate("the ES6 output is syntactically valid", "mismatch", "loop-ident-es6", cs, "valid", err.Error())
+		}
+	}
 	// ---- Part 3: every bundle of the C02 grammar (no common-subset filter): syntax and functions ----
 	lib := libFiles()
 	nb := 0
